@@ -5,7 +5,7 @@ mod vehicles_test;
 use super::*;
 use crate::utils::combine_error_results;
 use crate::validation::common::get_time_windows;
-use crate::{parse_time, parse_time_safe};
+use crate::parse_time_safe;
 use std::collections::HashSet;
 use vrp_core::models::common::TimeWindow;
 
@@ -82,10 +82,9 @@ fn check_e1303_vehicle_breaks_time_is_correct(ctx: &ValidationContext) -> Result
                             VehicleBreak::Required {
                                 time: VehicleRequiredBreakTime::OffsetTime { earliest, latest },
                                 duration,
-                            } => {
-                                let departure = parse_time(&shift.start.earliest);
-                                Some(Some(TimeWindow::new(departure + *earliest, departure + *latest + *duration)))
-                            }
+                            } => Some(parse_time_safe(&shift.start.earliest).ok().map(|departure| {
+                                TimeWindow::new(departure + *earliest, departure + *latest + *duration)
+                            })),
                             VehicleBreak::Required {
                                 time: VehicleRequiredBreakTime::ExactTime { earliest, latest },
                                 duration,
